@@ -789,6 +789,7 @@ func c09Tamper(c *Ctx) {
 	}
 	// the digest check itself: the closure built in newModuleData, or the function it forwards to
 	checkerFns := map[*ssa.Function]bool{}
+	checkerClosures := map[*ssa.Function]bool{}
 	var checkBodies []*ssa.Function
 	if nmf := p.Func("private/bufpkg/bufmodule", "newModuleData"); nmf != nil && nmf.Obj != nil {
 		if nsf := p.SSAFunc(nmf.Obj); nsf != nil {
@@ -808,6 +809,7 @@ func c09Tamper(c *Ctx) {
 					}
 				}
 				if isChecker {
+					checkerClosures[a] = true
 					// everything the check is made of (the closure body may have been split into methods of moduleData)
 					// is the check, not an accessor that must run the check first
 					for _, f := range reach {
@@ -819,6 +821,35 @@ func c09Tamper(c *Ctx) {
 			}
 		}
 	}
+	// the member that holds the check: the one newModuleData stores the checker closure into (whatever it is called)
+	checkField := ""
+	if nmf := p.Func("private/bufpkg/bufmodule", "newModuleData"); nmf != nil && nmf.Obj != nil {
+		if nsf := p.SSAFunc(nmf.Obj); nsf != nil {
+			for _, b := range nsf.Blocks {
+				for _, ins := range b.Instrs {
+					stIns, ok := ins.(*ssa.Store)
+					if !ok {
+						continue
+					}
+					fa, ok := stIns.Addr.(*ssa.FieldAddr)
+					if !ok || namedName(fa.X.Type()) != "moduleData" {
+						continue
+					}
+					sliceBack(stIns.Val, func(x ssa.Value) bool {
+						if mc, ok := x.(*ssa.MakeClosure); ok {
+							if fn, _ := mc.Fn.(*ssa.Function); fn != nil && checkerClosures[fn] {
+								checkField = st.Field(fa.Field).Name()
+							}
+						}
+						return true
+					})
+				}
+			}
+		}
+	}
+	if checkField == "" {
+		c.Fail("TAMPER", "check-member", obj.Pos(), "no member of moduleData is assigned the digest-checking closure in newModuleData")
+	}
 	accessors := 0
 	for i := 0; i < nt.NumMethods(); i++ {
 		m := nt.Method(i)
@@ -828,13 +859,13 @@ func c09Tamper(c *Ctx) {
 		}
 		var checks []ssaCall
 		for _, call := range callsIn(sf) {
-			if fieldOfCall(call.Call) == "checkDigest" {
+			if f := fieldOfCall(call.Call); f != "" && f == checkField {
 				checks = append(checks, call)
 			}
 		}
 		for _, call := range callsIn(sf) {
 			f := fieldOfCall(call.Call)
-			if f == "" || f == "checkDigest" {
+			if f == "" || f == checkField {
 				continue
 			}
 			accessors++
@@ -844,7 +875,7 @@ func c09Tamper(c *Ctx) {
 					ok = true
 				}
 			}
-			c.Ob("TAMPER", funcID(m)+"/"+f, call.Pos(), ok, true, "raw getter %s is called only on the nil edge of a preceding checkDigest(): %v", f, ok)
+			c.Ob("TAMPER", funcID(m)+"/"+f, call.Pos(), ok, true, "raw getter %s is called only on the nil edge of a preceding call of the digest check (%s): %v", f, checkField, ok)
 		}
 	}
 	if accessors < 4 {
